@@ -210,7 +210,11 @@ func c01Scenarios(thorough bool) []*explore.Scenario {
 	for _, ms := range c01Multisets(alpha, max1) {
 		q := explore.Bounds{P: 2}
 		if len(ms) >= 3 {
+			// P=2 only for the multisets that contain an accepted auth and something racing with it
 			q = explore.Bounds{P: 1}
+			if ms[0] == c01AuthOK && (ms[1] != c01AuthOK || ms[2] != c01AuthOK) && ms[1] != c01Raw401 && ms[2] != c01Raw401 {
+				q = explore.Bounds{P: 2}
+			}
 		}
 		t := explore.Bounds{P: 3}
 		if len(ms) >= 4 {
@@ -223,7 +227,11 @@ func c01Scenarios(thorough bool) []*explore.Scenario {
 	noAuth := []string{c01AuthBad, c01NonAuth, c01Raw401, c01Dgram}
 	for _, a := range [][]string{{c01AuthOK}, {c01AuthOK, c01Raw401}, {c01AuthOK, c01Dgram}} {
 		for _, b := range c01Multisets(noAuth, 2) {
-			add("2conn:"+strings.Join(a, "+")+"|"+strings.Join(b, "+"), [][]string{a, b}, false, explore.Bounds{P: 1}, explore.Bounds{P: 2})
+			q2 := explore.Bounds{P: 1}
+			if len(a)+len(b) <= 3 {
+				q2 = explore.Bounds{P: 2}
+			}
+			add("2conn:"+strings.Join(a, "+")+"|"+strings.Join(b, "+"), [][]string{a, b}, false, q2, explore.Bounds{P: 2})
 		}
 	}
 	return scs
